@@ -396,7 +396,10 @@ type c01State struct {
 	blkPeerSeen  bool
 	limitLowered bool // an encoder-local Limit() shrank the encoder table at some point (see c01Lockstep)
 
-	nsWritten map[c01Pair]bool // C05: pairs that were written at least once with Sensitive=false
+	// C05 (perField) only
+	nsWritten map[c01Pair]bool // pairs that were written at least once with Sensitive=false
+	open      bool             // a block is open (pend is not kept in this mode)
+	openSens  bool             // ... and holds a sensitive field
 }
 
 func c01New(id string, perField bool) *c01State {
@@ -498,6 +501,8 @@ func c01Canon(s *c01State) string {
 	flag(s.peerSeen)
 	flag(s.blkPeerSeen)
 	flag(s.limitLowered)
+	flag(s.open)
+	flag(s.openSens)
 	if s.nsWritten != nil {
 		var ks []string
 		for p := range s.nsWritten {
@@ -640,6 +645,16 @@ func c01ReprFields(reprs []c01Repr) (fs []HeaderField, kinds []byte) {
 		}
 	}
 	return
+}
+
+func c01FieldReprs(reprs []c01Repr) []c01Repr {
+	var out []c01Repr
+	for _, r := range reprs {
+		if r.kind != 'U' {
+			out = append(out, r)
+		}
+	}
+	return out
 }
 
 func c01KindName(k byte, idx uint64) string {
